@@ -3,7 +3,7 @@
     TNSem).  The model (Qib.TN.TNModel) is a hand port of symbolic_network.py WITH the proposed
     repairs (merge: every deleted open axis once; is_consistent: exact leg count) and is tied
     to /repo by the exact correspondence run of checks/C08.py on every run. *)
-From Qib Require Import TN.TNCounts Base.Inst.
+From Qib Require Import TN.TNSem Base.Inst.
 
 (** 1. the invariant implies the library's own check *)
 Theorem C08_invariant_implies_is_consistent : forall n, WF n -> is_consistent n = true.
@@ -89,6 +89,45 @@ Proof.
   split; [exact zmax0_fresh|]. split; [exact relabel_tensors_disjoint | exact relabel_bonds_disjoint].
 Qed.
 Print Assumptions C08_fresh_ids.
+
+(** 6. semantics.  The value of a network is its defining sum
+        T[x] = sum over all bond indices of  prod_t data_t[indices of t's bonds] * prod_k [x_k = index of open axis k's bond]
+    (C07 proves that contract_einsum computes it).  Renames leave it unchanged, for every
+    commutative ring of scalars and all tensor data. *)
+Theorem C08_rename_tensor_keeps_value :
+  forall (K : Scalar) (L : ScalarLaws K) n a c n' (data : Z -> list nat -> K) x,
+    WF n -> a <> VT -> rename_tensor n a c = Some n' -> defining_sum n' data x = defining_sum n data x.
+Proof. intros. eapply rename_tensor_value; eauto. Qed.
+Print Assumptions C08_rename_tensor_keeps_value.
+
+Theorem C08_rename_bond_keeps_value :
+  forall (K : Scalar) (L : ScalarLaws K) n a c n' (data : Z -> list nat -> K) x,
+    WF n -> rename_bond n a c = Some n' -> defining_sum n' data x = defining_sum n data x.
+Proof. intros. eapply rename_bond_value; eauto. Qed.
+Print Assumptions C08_rename_bond_keeps_value.
+
+(** transposing permutes the value like numpy.transpose:  V'[x] = V[y]  with  y[axes[k]] = x[k] *)
+Theorem C08_transpose_permutes_value :
+  forall (K : Scalar) (L : ScalarLaws K) n axes n' (data : Z -> list nat -> K) x,
+    WF n -> is_perm_of axes n -> transpose n axes = Some n' -> length x = length axes ->
+    defining_sum n' data x = defining_sum n data (untranspose axes x).
+Proof. intros. eapply transpose_value; eauto. Qed.
+Print Assumptions C08_transpose_permutes_value.
+
+(* 7. merge = contraction over the joined axes  (NOT proved; full statement, for joins that use
+   every open axis at most once, joins = [(a_1,b_1);...;(a_m,b_m)]):
+     forall n o joins ordT ordB n' data x, WF n -> WF o -> joins_dim_ok n o joins ->
+       merge n o joins ordT ordB = Some n' -> length x = (no1 - m) + (no2 - m) ->
+       defining_sum n' data x =
+         sum over j_1..j_m (j_r < dimension of axis a_r) of
+           defining_sum n data (x1 x j) * defining_sum o data (x2 x j)
+     where x1 puts j_r at position a_r and the first no1-m entries of x at the other positions
+     (in order), x2 puts j_r at position b_r and the remaining entries of x at the others.
+   For joins that reuse an axis all joined axes of one connected group carry one summed index.
+   What IS proved about merge: the invariant, the counts, the fresh ids (theorems 2,4,5).
+   The value semantics of merge is checked on every merge of the correspondence run against an
+   independent numpy reference (checks/C08.py: ref_merge_value) and, exactly, against this
+   model's defining_sum of the merged network. *)
 
 (** the decidable form of the invariant used by the correspondence run *)
 Theorem C08_wf_b_sound : forall n, wf_b n = true -> WF n.
